@@ -80,11 +80,9 @@ func conversionObjectToObject(in, out cty.Type, unsafe bool) conversion {
 				}
 			}
 
-			if val.IsNull() {
-				// Strip optional attributes out of the embedded type for null
-				// values.
-				val = cty.NullVal(val.Type().WithoutOptionalAttributesDeep())
-			}
+			// Strip optional attributes out of the embedded type for null
+			// values.
+			val = stripOptionalFromNull(val)
 
 			attrVals[name] = val
 		}
